@@ -305,5 +305,14 @@ theorem exec_shown_good {st : St} (h : All Good st) (op : Op) {s : MH}
     · unfold showSig at ha
       split at ha <;> cases ha
     · cases ha
+  | addseq hd bytes force =>
+    simp only [exec] at ha
+    split at ha
+    · rename_i t ht
+      split at ha
+      · cases ha
+      · cases ha
+        exact good_closed.addMany _ (h _ _ ht)
+    · cases ha
 
 end Sm
